@@ -11,7 +11,10 @@ import copy
 from . import facts as F
 from .facts import walk, strip, peel, resolved, ARRAY
 
-NEVER_INLINE = ("backward", "propagate_consumers", "flatten_to", "with_children", "with_backward_op", "sliced_op", "op")
+# functions the rules refer to by (canonical) name are kept as calls
+NEVER_INLINE = ("backward", "propagate_consumers", "flatten_to", "with_children", "with_backward_op", "sliced_op", "op",
+                "tracked", "untracked", "start_tracking", "stop_tracking", "dimensions", "values", "gradient", "gradient_mut",
+                "replace_gradient", "reshape", "matmul", "sum", "sum_all")
 
 
 class ViewFacts:
@@ -104,11 +107,62 @@ def _rename_in_place(view, t, suffix, subst):
                     stack.append(v)
 
 
+def eliminate_returns(root):
+    """Rewrite `{ s1; if c { return A; } s2; tail }` into `{ s1; if c { A } else { s2; tail } }`
+    (in place, recursively on the else-part) so that helpers written with early returns can
+    be inlined as expressions.  Returns True if no `return` is left."""
+    def ends_with_return(blk):
+        b = strip(blk)
+        if isinstance(b, dict) and b.get("k") == "Return":
+            return b
+        if isinstance(b, dict) and b.get("k") == "Block":
+            if b.get("e") is not None:
+                return ends_with_return(b["e"])
+            if b["stmts"] and b["stmts"][-1]["s"] == "expr":
+                return ends_with_return(b["stmts"][-1]["e"])
+        return None
+
+    def replace_return(blk):
+        """make the block evaluate to the returned expression instead of returning it"""
+        b = strip(blk)
+        if b.get("k") == "Return":
+            return b["e"] if b.get("e") is not None else {"k": "Tuple", "fields": [], "ty": "()", "sp": b.get("sp")}
+        if b.get("k") == "Block":
+            if b.get("e") is not None:
+                b["e"] = replace_return(b["e"])
+            elif b["stmts"]:
+                last = b["stmts"].pop()
+                b["e"] = replace_return(last["e"])
+            return b
+        return b
+
+    def fix(blk):
+        if not isinstance(blk, dict) or blk.get("k") != "Block":
+            return
+        for i, st in enumerate(blk["stmts"]):
+            if st["s"] != "expr":
+                continue
+            e = strip(st["e"])
+            if isinstance(e, dict) and e.get("k") == "If" and e.get("else") is None and ends_with_return(e["then"]) is not None \
+                    and not any(x.get("k") == "Return" for x in walk(e["cond"])):
+                rest = {"k": "Block", "sp": blk.get("sp"), "safety": "safe", "stmts": blk["stmts"][i + 1:], "e": blk.get("e"), "ty": blk.get("ty")}
+                then_v = replace_return(e["then"])
+                new_if = {"k": "If", "ty": blk.get("ty"), "sp": e.get("sp"), "cond": e["cond"], "then": then_v, "else": rest}
+                blk["stmts"] = blk["stmts"][:i]
+                blk["e"] = new_if
+                fix(rest)
+                return
+        # a trailing `return x` as the last statement / tail
+        if blk.get("e") is not None and strip(blk["e"]).get("k") == "Return":
+            blk["e"] = replace_return(blk["e"])
+    r = strip(root)
+    fix(r)
+    return not any(x.get("k") == "Return" for x in walk(root))
+
+
 def default_policy(facts, callee_body):
     if callee_body is None or callee_body["kind"] not in ("Fn", "AssocFn"):
         return False
-    if callee_body.get("reachable"):
-        return False                    # public API is never dissolved
     if callee_body.get("name") in NEVER_INLINE:
         return False
     if callee_body.get("impl_trait_def"):
@@ -116,11 +170,21 @@ def default_policy(facts, callee_body):
     root = facts.root(callee_body)
     if root is None:
         return False
+    size = 0
     for n in walk(root):
-        if n.get("k") == "Return":
-            return False
+        size += 1
+        if n.get("k") == "Call" and resolved(n) in ("corgi::array::Array::with_children", "corgi::array::Array::sliced_op",
+                                                    "corgi::array::Array::with_backward_op"):
+            return False                # an operation constructor: a node of the program, not engine plumbing
+    if size > 400:
+        return False
+    for n in walk(root):
         if n.get("k") == "Call" and resolved(n) == callee_body["def"]:
             return False                # recursive
+    if any(n.get("k") == "Return" for n in walk(root)):
+        trial = copy.deepcopy(root)
+        if not eliminate_returns(trial):
+            return False
     return True
 
 
@@ -166,6 +230,8 @@ def _inline_calls(view, tree, policy, stack, depth, log):
             else:
                 lets.append({"s": "let", "sp": call.get("sp"), "pat": None, "init": a, "_pat_src": pat})
         body = _rename_tree(view, view.base.root(cb), suffix, subst)
+        if any(x.get("k") == "Return" for x in walk(body)):
+            eliminate_returns(body)
         for l in lets:
             l["pat"] = _rename_tree(view, l.pop("_pat_src"), suffix, subst)
         log.append(cb["def"])
@@ -188,6 +254,103 @@ def inline_body(view, b, policy=default_policy):
     return nb
 
 
+PLACE_KINDS = ("VarRef", "UpvarRef", "Field", "Deref", "Use", "PointerCoercion", "ValueTypeAscription", "PlaceTypeAscription")
+
+
+def _is_place_alias(e):
+    """`&x.f`, `&*x`, `x.f.g`, `&**x`: an expression that only names a place (no call except Deref, no index by a variable)"""
+    e0 = e
+    n = 0
+    while isinstance(e0, dict) and n < 12:
+        k = e0.get("k")
+        if k in ("VarRef", "UpvarRef"):
+            return True
+        if k == "Borrow" and e0.get("bk") == "shared":
+            e0 = e0["e"]
+        elif k in ("Field", "Deref", "Use", "PointerCoercion", "ValueTypeAscription", "PlaceTypeAscription"):
+            e0 = e0["e"]
+        elif k == "Call" and (e0.get("callee") or {}).get("path") == "core::ops::deref::Deref::deref" and len(e0["args"]) == 1:
+            e0 = e0["args"][0]
+        elif k == "Block" and not e0["stmts"] and e0.get("e") is not None:
+            e0 = e0["e"]
+        else:
+            return False
+        n += 1
+    return False
+
+
+def propagate_place_aliases(view, root):
+    """`let operands = &self.children;` ... `operands.iter()`  ==>  `(&self.children).iter()`.
+    Only immutable, never-reassigned bindings of pure place expressions are substituted, in
+    the body and in the closures it contains."""
+    aliases = {}
+    assigned = set()
+    roots = [root]
+    seen_clo = set()
+    todo = [root]
+    while todo:
+        r = todo.pop()
+        for n in walk(r):
+            if n.get("k") == "Closure" and n["closure"] not in seen_clo:
+                seen_clo.add(n["closure"])
+                cb = view.body(n["closure"])
+                if cb is not None and cb.get("thir"):
+                    if n["closure"] not in view.overlay:
+                        cb = copy.deepcopy(cb)
+                        view.overlay[n["closure"]] = cb
+                    roots.append(cb["thir"]["root"])
+                    todo.append(cb["thir"]["root"])
+    for r in roots:
+        for n in walk(r):
+            k = n.get("k")
+            if k in ("Assign", "AssignOp"):
+                l = peel(n["l"])
+                if isinstance(l, dict) and l.get("k") in ("VarRef", "UpvarRef") and strip(n["l"]).get("k") in ("VarRef", "UpvarRef"):
+                    assigned.add(l["v"])
+            if k == "Borrow" and n.get("bk") == "mut":
+                l = strip(n["e"])
+                if isinstance(l, dict) and l.get("k") in ("VarRef", "UpvarRef"):
+                    assigned.add(l["v"])
+            if k == "Block":
+                for st in n["stmts"]:
+                    if st["s"] == "let" and st["pat"].get("k") == "Binding" and not st["pat"].get("sub") and st.get("init") is not None \
+                            and "Mut" not in str(st["pat"].get("mode", "")).split(",")[-1] and _is_place_alias(st["init"]):
+                        if not (isinstance(strip(st["init"]), dict) and strip(st["init"]).get("k") in ("VarRef", "UpvarRef")):
+                            aliases[st["pat"]["v"]] = st["init"]
+    aliases = {v: e for v, e in aliases.items() if v not in assigned}
+    if not aliases:
+        return 0
+    count = [0]
+
+    def subst(x):
+        if isinstance(x, dict):
+            for k, v in list(x.items()):
+                if k in ("pat", "sp"):
+                    continue
+                if isinstance(v, dict):
+                    if v.get("k") in ("VarRef", "UpvarRef") and v.get("v") in aliases:
+                        rep = copy.deepcopy(aliases[v["v"]])
+                        x[k] = rep
+                        count[0] += 1
+                        subst(rep)
+                    else:
+                        subst(v)
+                elif isinstance(v, list):
+                    for i, it in enumerate(v):
+                        if isinstance(it, dict):
+                            if it.get("k") in ("VarRef", "UpvarRef") and it.get("v") in aliases:
+                                v[i] = copy.deepcopy(aliases[it["v"]])
+                                count[0] += 1
+                                subst(v[i])
+                            else:
+                                subst(it)
+    for r in roots:
+        # resolve chains a -> b -> place first
+        for _ in range(3):
+            subst(r)
+    return count[0]
+
+
 _CACHE = {}
 
 
@@ -201,7 +364,9 @@ def engine_view(facts):
     view = ViewFacts(facts)
     for b in facts.fns():
         if b.get("impl_self") == ARRAY and b.get("impl_trait_def") is None and b.get("name") in ("backward", "propagate_consumers"):
-            inline_body(view, b)
+            nb = inline_body(view, b)
+            if nb.get("thir"):
+                propagate_place_aliases(view, nb["thir"]["root"])
     _CACHE.clear()
     _CACHE[key] = (facts, view)
     return view
